@@ -8,6 +8,7 @@ import (
 	"errors"
 	"os"
 	"sync"
+	"time"
 
 	"github.com/gdamore/tcell/v2"
 )
@@ -48,6 +49,9 @@ type Tty struct {
 	StartErr error
 	// ReadGate, when set, is called at the start of every Read (outside the lock).
 	ReadGate func()
+	// IdleZeroRead > 0: a Read that finds no input does not block but returns
+	// (0, nil) after this long - a polling tty, which io.Reader permits.
+	IdleZeroRead time.Duration
 }
 
 // ErrInjected is the default injected read error.
@@ -159,6 +163,17 @@ func (t *Tty) Read(p []byte) (int, error) {
 		if t.drained || t.closed {
 			t.logCall("ReadEnd", 0, true)
 			return 0, os.ErrDeadlineExceeded
+		}
+		if t.IdleZeroRead > 0 {
+			d := t.IdleZeroRead
+			t.mu.Unlock()
+			time.Sleep(d)
+			t.mu.Lock()
+			if len(t.readQ) == 0 && len(t.readErrs) == 0 && !t.drained && !t.closed {
+				t.logCall("ReadEnd", 0, false)
+				return 0, nil
+			}
+			continue
 		}
 		t.cond.Wait()
 	}
